@@ -29,9 +29,9 @@ ASSUMPTIONS = [
 def _build(case):
     import finam as fm
 
-    g = fm.NoGrid()
+    g = fm.NoGrid(1)
     out = fm.Output(name="o", info=fm.Info(time=hs.T0, grid=g, units="m"))
-    ends, inputs, chains = [], [], []
+    ends, inputs, chains, adapters = [], [], [], []
     for k, c in enumerate(case["consumers"]):
         sh = c.get("share")
         if sh is not None and sh < len(ends) and chains[sh] and all(a[0] in ("scale", "cb", "dfix") for a in chains[sh]):
@@ -40,7 +40,9 @@ def _build(case):
             chain = c["chain"]
             end = out
             for a in chain:
-                end = end >> hs.make_adapter(a)
+                ada = hs.make_adapter(a)
+                adapters.append(ada)
+                end = end >> ada
         inp = fm.Input(name=f"i{k}", info=fm.Info(time=hs.T0, grid=g, units="m"))
         end >> inp
         ends.append(end)
@@ -50,13 +52,33 @@ def _build(case):
         inp.ping()
     for inp in inputs:
         inp.exchange_info()
+    _build.adapters = adapters  # buffers of push-based adapters legitimately keep publications alive
     return out, inputs, chains
 
 
 def check(case, ctx):
+    import shutil
+    import tempfile
+
+    spill = tempfile.mkdtemp(prefix="vf-c09-") if case.get("limit") is not None else None
+    try:
+        _check(case, ctx, spill)
+    finally:
+        if spill:
+            shutil.rmtree(spill, ignore_errors=True)
+
+
+def _check(case, ctx, spill):
+    import gc
+    import weakref
+
     import finam as fm
 
     out, inputs, chains = _build(case)
+    if spill:
+        out.memory_limit, out.memory_location = case["limit"], spill
+        ctx.event("with-memory-limit")
+    refs = []
     n = len(inputs)
     pubs = []  # complete history [(time, value)]
     last = [None] * n  # last request per consumer (consumer side)
@@ -75,7 +97,7 @@ def check(case, ctx):
         if op[0] == "push":
             t_now = t_now + timedelta(minutes=op[1]) if pubs else hs.T0
             try:
-                out.push_data(float(hs.mins(t_now)), t_now)
+                out.push_data(np.full(3, float(hs.mins(t_now))), t_now)
             except (fm.FinamTimeError, fm.FinamNoDataError) as e:
                 ctx.violation("push-failed", f"publication at {hs.mins(t_now)} failed (a push-based consumer could not read it): {e}")
                 return
@@ -104,6 +126,14 @@ def check(case, ctx):
                 ctx.violation("needed-data-dropped", f"consumer {i} (chain {chain}) request {hs.mins(t)} min refused though within the published range: {e}; last requests {[hs.mins(x) for x in last]}")
                 return
             got = float(np.asarray(r.magnitude).ravel()[0])
+            base = np.ma.getdata(r.magnitude)
+            while isinstance(getattr(base, "base", None), np.ndarray):
+                base = base.base
+            try:
+                refs.append(weakref.ref(base))
+            except TypeError:
+                pass
+            del r, base
             if not any(abs(got - e) <= 1e-9 * max(1.0, abs(e)) for e in exp_ok):
                 ctx.violation("differs-from-unlimited-history", f"consumer {i} (chain {chain}) request {hs.mins(t)} min -> {got}, unlimited history gives {exp_ok}")
                 return
@@ -129,6 +159,15 @@ def check(case, ctx):
                     cnt = [sum(1 for p, _ in pubs if p <= x) for x in ends_req]
                     if max(cnt) - min(cnt) > 2:
                         spread = True
+    # bounded memory: arrays the consumers dropped must die with the history (not only len(data) is bounded)
+    retained = len(out.data) + sum(len(a.data) for a in _build.adapters if isinstance(getattr(a, "data", None), list))
+    alive = len({id(o) for o in (w() for w in refs) if o is not None})
+    if alive > retained + 3 + n:
+        gc.collect()
+        alive = len({id(o) for o in (w() for w in refs) if o is not None})
+        if alive > retained + 3 + n:
+            ctx.violation("delivered-arrays-stay-alive", f"{alive} of {len(refs)} delivered arrays are still referenced, only {retained} entries are retained (output and adapter buffers)")
+            return
     out.finalize()
     ctx.event(f"consumers={n}")
     for ch in chains:
@@ -163,7 +202,7 @@ def case_st(max_ops):
                 d = draw(st.sampled_from([1, 2, 3, 4]))
                 # slow consumers: small fractions; fast: full
                 ops.append(["pull", draw(st.integers(0, 3)), draw(st.integers(0, d)), d])
-        return {"consumers": cons, "ops": ops}
+        return {"consumers": cons, "ops": ops, "limit": draw(st.sampled_from([None, None, None, 0, 16]))}
 
     return build()
 
@@ -180,12 +219,12 @@ def deep_case(draw):
         else:
             d = draw(st.sampled_from([37, 64, 97, 131]))
             ops.append(["pull", draw(st.integers(0, 2)), draw(st.integers(1, 4)), d])
-    return {"consumers": cons, "ops": ops}
+    return {"consumers": cons, "ops": ops, "limit": draw(st.sampled_from([None, None, 0, 16]))}
 
 
 def parts():
     return [
         Part("machines", check, strategy=case_st(60), budget={"quick": 1200, "thorough": 16000}),
-        Part("long_runs", check, strategy=case_st(250), budget={"quick": 100, "thorough": 8000}),
-        Part("deep_history", check, strategy=deep_case(), budget={"quick": 150, "thorough": 6000}),
+        Part("long_runs", check, strategy=case_st(250), budget={"quick": 100, "thorough": 8000}, shrink_budget=120),
+        Part("deep_history", check, strategy=deep_case(), budget={"quick": 150, "thorough": 6000}, shrink_budget=120),
     ]
